@@ -52,7 +52,7 @@ IsaProgs ==
     IN  Flatten([i \in 1..Len(all) |-> progs(all[i])])
 
 XTypes == <<"R", "C", "P", "V", "Q", "M", "G", "S">>
-XNums == <<0, 1, 2, 3, 10, 31>>
+XNums == <<0, 1, 2, 3, 4, 9, 10, 19, 29, 31>>
 ExplicitProgs ==
     Flatten([i \in 1..(Len(XTypes) * Len(XNums)) |->
         LET rt == XTypes[((i - 1) \div Len(XNums)) + 1]
